@@ -216,6 +216,94 @@ Proof.
         exact (origin_route_int 2 (or_introl eq_refl) f s c d a0 sz [(- ox)%Z; (- oy)%Z] [jx; jy] eq_refl eq_refl eq_refl) end.
 Qed.
 
+(* ---------- the same in 3-D: pad, center crop, center pad ---------- *)
+Theorem pad_exact3 (f s c : nat -> K) (d : nat -> nat -> K) (a0 : bool) (cv : K) (xlo xhi ylo yhi zlo zhi nx ny nz : Z)
+        (im : nimg (K:=K)) (jx jy jz : Z) :
+  ishape im = [nx; ny; nz] ->
+  let g := mkG (vtab 3 f) (vtab 3 s) (vtab 3 c) (tab 3 3 d) a0 in
+  let num := [xlo; xhi; ylo; yhi; zlo; zhi] in
+  let out := d_pad 3 cv num im in
+  ishape out = [nx + xlo + xhi; ny + ylo + yhi; nz + zlo + zhi]%Z /\
+  ((0 <= jx - xlo < nx)%Z -> (0 <= jy - ylo < ny)%Z -> (0 <= jz - zlo < nz)%Z ->
+     ival out [jx; jy; jz] = ival im [jx - xlo; jy - ylo; jz - zlo]%Z) /\
+  (~ ((0 <= jx - xlo < nx)%Z /\ (0 <= jy - ylo < ny)%Z /\ (0 <= jz - zlo < nz)%Z) -> ival out [jx; jy; jz] = cv) /\
+  d_itw ceilK 3 (g_pad ceilK leK 3 num g) [of_Z jx; of_Z jy; of_Z jz]
+  = d_itw ceilK 3 g [of_Z (jx - xlo); of_Z (jy - ylo); of_Z (jz - zlo)]%Z.
+Proof.
+  intros Hs g num out.
+  destruct (crop3_value cv (- xlo) (- xhi) (- ylo) (- yhi) (- zlo) (- zhi) nx ny nz im jx jy jz Hs) as (P1 & P2 & P3).
+  split; [|split; [|split]].
+  - unfold out, d_pad, num. cbn [map]. etransitivity; [exact P1|]. f_equal; [|f_equal; [|f_equal]]; lia.
+  - intros Hx Hy Hz. replace (jx - xlo)%Z with (jx + - xlo)%Z by lia. replace (jy - ylo)%Z with (jy + - ylo)%Z by lia.
+    replace (jz - zlo)%Z with (jz + - zlo)%Z by lia. apply P2; lia.
+  - intro H. apply P3. lia.
+  - unfold g_pad, num. destruct (forallb (Z.eqb 0) [xlo; xhi; ylo; yhi; zlo; zhi]) eqn:E.
+    + cbn [forallb] in E. repeat (apply andb_prop in E as [? E]).
+      repeat match goal with H : (0 =? _)%Z = true |- _ => apply Z.eqb_eq in H end. subst. rewrite !Z.sub_0_r. reflexivity.
+    + cbn [evens map].
+      assert (EO : vopp [zK xlo; zK ylo; zK zlo] = map (of_Z (K:=K)) [(- xlo)%Z; (- ylo)%Z; (- zlo)%Z])
+        by (unfold vopp, zK; cbn [map]; rewrite !of_Z_opp by auto; reflexivity).
+      rewrite EO.
+      replace (jx - xlo)%Z with (jx + - xlo)%Z by lia. replace (jy - ylo)%Z with (jy + - ylo)%Z by lia.
+      replace (jz - zlo)%Z with (jz + - zlo)%Z by lia.
+      match goal with |- d_itw ceilK 3 (mk_origin ceilK 3 ?sz _ _ _ _) _ = _ =>
+        exact (origin_route_int 3 (or_intror eq_refl) f s c d a0 sz [(- xlo)%Z; (- ylo)%Z; (- zlo)%Z] [jx; jy; jz] eq_refl eq_refl eq_refl) end.
+Qed.
+
+Theorem center_crop_exact3 (f s c : nat -> K) (d : nat -> nat -> K) (a0 : bool) (sx sy sz nx ny nz : Z) (im : nimg (K:=K)) (jx jy jz : Z) :
+  ishape im = [nx; ny; nz] ->
+  let g := mkG (vtab 3 f) (vtab 3 s) (vtab 3 c) (tab 3 3 d) a0 in
+  nZ ceilK g = [nx; ny; nz] ->
+  let out := d_center_crop 3 [sx; sy; sz] im in
+  let ox := ((nx - Z.min nx sx) / 2)%Z in let oy := ((ny - Z.min ny sy) / 2)%Z in let oz := ((nz - Z.min nz sz) / 2)%Z in
+  ishape out = [Z.min nx sx; Z.min ny sy; Z.min nz sz] /\
+  ((0 <= jx + ox < nx)%Z -> (0 <= jy + oy < ny)%Z -> (0 <= jz + oz < nz)%Z ->
+     ival out [jx; jy; jz] = ival im [jx + ox; jy + oy; jz + oz]%Z) /\
+  d_itw ceilK 3 (g_center_crop ceilK 3 [sx; sy; sz] g) [of_Z jx; of_Z jy; of_Z jz]
+  = d_itw ceilK 3 g [of_Z (jx + ox); of_Z (jy + oy); of_Z (jz + oz)]%Z.
+Proof.
+  intros Hs g Hn out ox oy oz.
+  destruct (crop3_value 0 ox (nx - Z.min nx sx - ox) oy (ny - Z.min ny sy - oy) oz (nz - Z.min nz sz - oz) nx ny nz im jx jy jz Hs)
+    as (P1 & P2 & _).
+  assert (EQ : out = crop_ax 0 2 oz (nz - Z.min nz sz - oz) (crop_ax 0 1 oy (ny - Z.min ny sy - oy) (crop_ax 0 0 ox (nx - Z.min nx sx - ox) im))).
+  { unfold out, d_center_crop, all_axes. cbn [fold_axes crop_ax ishape]. rewrite Hs. cbn [zget nth upd]. reflexivity. }
+  split; [|split].
+  - rewrite EQ, P1. f_equal; [|f_equal; [|f_equal]]; unfold ox, oy, oz; lia.
+  - intros Hx Hy Hz. rewrite EQ. apply P2; auto.
+  - unfold g_center_crop. rewrite Hn. cbn [combine map fst snd]. unfold zK.
+    match goal with |- d_itw ceilK 3 (mk_origin ceilK 3 ?sz0 _ _ _ _) _ = _ =>
+      exact (origin_route_int 3 (or_intror eq_refl) f s c d a0 sz0 [ox; oy; oz] [jx; jy; jz] eq_refl eq_refl eq_refl) end.
+Qed.
+
+Theorem center_pad_exact3 (f s c : nat -> K) (d : nat -> nat -> K) (a0 : bool) (cv : K) (sx sy sz nx ny nz : Z) (im : nimg (K:=K)) (jx jy jz : Z) :
+  ishape im = [nx; ny; nz] ->
+  let g := mkG (vtab 3 f) (vtab 3 s) (vtab 3 c) (tab 3 3 d) a0 in
+  nZ ceilK g = [nx; ny; nz] ->
+  let out := d_center_pad 3 cv [sx; sy; sz] im in
+  let ox := ((Z.max nx sx - nx) / 2)%Z in let oy := ((Z.max ny sy - ny) / 2)%Z in let oz := ((Z.max nz sz - nz) / 2)%Z in
+  ishape out = [Z.max nx sx; Z.max ny sy; Z.max nz sz] /\
+  ((0 <= jx - ox < nx)%Z -> (0 <= jy - oy < ny)%Z -> (0 <= jz - oz < nz)%Z ->
+     ival out [jx; jy; jz] = ival im [jx - ox; jy - oy; jz - oz]%Z) /\
+  d_itw ceilK 3 (g_center_pad ceilK 3 [sx; sy; sz] g) [of_Z jx; of_Z jy; of_Z jz]
+  = d_itw ceilK 3 g [of_Z (jx - ox); of_Z (jy - oy); of_Z (jz - oz)]%Z.
+Proof.
+  intros Hs g Hn out ox oy oz.
+  destruct (crop3_value cv (- ox) (- ((Z.max nx sx - nx + 1) / 2)) (- oy) (- ((Z.max ny sy - ny + 1) / 2))
+              (- oz) (- ((Z.max nz sz - nz + 1) / 2)) nx ny nz im jx jy jz Hs) as (P1 & P2 & _).
+  assert (EQ : out = crop_ax cv 2 (- oz) (- ((Z.max nz sz - nz + 1) / 2))
+                       (crop_ax cv 1 (- oy) (- ((Z.max ny sy - ny + 1) / 2)) (crop_ax cv 0 (- ox) (- ((Z.max nx sx - nx + 1) / 2)) im))).
+  { unfold out, d_center_pad, all_axes. cbn [fold_axes crop_ax ishape]. rewrite Hs. cbn [zget nth upd]. reflexivity. }
+  split; [|split].
+  - rewrite EQ, P1. f_equal; [|f_equal; [|f_equal]]; unfold ox, oy, oz; lia.
+  - intros Hx Hy Hz. rewrite EQ.
+    replace (jx - ox)%Z with (jx + - ox)%Z by lia. replace (jy - oy)%Z with (jy + - oy)%Z by lia. replace (jz - oz)%Z with (jz + - oz)%Z by lia.
+    apply P2; lia.
+  - unfold g_center_pad. rewrite Hn. cbn [combine map fst snd]. unfold zK.
+    replace (jx - ox)%Z with (jx + - ox)%Z by lia. replace (jy - oy)%Z with (jy + - oy)%Z by lia. replace (jz - oz)%Z with (jz + - oz)%Z by lia.
+    match goal with |- d_itw ceilK 3 (mk_origin ceilK 3 ?sz0 _ _ _ _) _ = _ =>
+      exact (origin_route_int 3 (or_intror eq_refl) f s c d a0 sz0 [(- ox)%Z; (- oy)%Z; (- oz)%Z] [jx; jy; jz] eq_refl eq_refl eq_refl) end.
+Qed.
+
 (* ---------- shape_agrees (crop / pad / resize family): the grid's integer size is the data shape ---------- *)
 Hypothesis ceil_int : forall z : Z, ceilK (of_Z z) = z.
 Hypothesis ceil_shift : forall (x : K) (z : Z), ceilK (x - of_Z z) = (ceilK x - z)%Z.
